@@ -117,6 +117,30 @@ impl Drop for LyingOwner {
     }
 }
 
+/// an `AsRef<[u8]>` that answers with a long or a short slice depending on the call number (bit k of `sched`)
+struct LyingAsRef {
+    long: Vec<u8>,
+    short: Vec<u8>,
+    sched: usize,
+    calls: std::cell::Cell<usize>,
+}
+impl AsRef<[u8]> for LyingAsRef {
+    fn as_ref(&self) -> &[u8] {
+        let k = self.calls.get();
+        self.calls.set(k + 1);
+        if k > 3000 {
+            // fuel: a consumer may loop forever on a lying owner (allowed); the harness cuts it off (a panicking as_ref is
+            // itself one of the misbehaviours the property quantifies over)
+            panic!("lying owner: fuel exhausted");
+        }
+        if (self.sched >> (k % 16)) & 1 == 1 {
+            &self.long
+        } else {
+            &self.short
+        }
+    }
+}
+
 struct LyingIter {
     n: usize,
     lower: usize,
@@ -140,7 +164,7 @@ impl Iterator for LyingIter {
 pub const CONSUMERS: &[&str] = &[
     "copy_to_slice", "try_copy_to_slice", "get_u32", "get_u64_le", "get_uint", "try_get_i128", "get_u8", "copy_to_bytes", "take_copy_to_bytes",
     "chain_copy_to_bytes", "take_chunks_vectored", "chain_chunks_vectored", "bytesmut_put", "vec_put", "slice_put", "split_bytesmut_put",
-    "limit_put", "into_iter", "reader_read", "chain_get_u64",
+    "limit_put", "into_iter", "reader_read", "chain_get_u64", "cursor_copy_to_slice", "cursor_get_u64", "cursor_copy_to_bytes", "cursor_drain",
 ];
 
 /// run one consumer against one lie script; the returned string is the (non-address) outcome
@@ -226,6 +250,45 @@ fn consume(name: &str, script: &[Lie], arg: usize) -> Result<String, ()> {
                 format!("{:?}", lb.reader().read(&mut dst).ok())
             }
             "chain_get_u64" => format!("v {}", Buf::chain(&b"ab"[..], lb).get_u64()),
+            #[cfg(feature = "std")]
+            n if n.starts_with("cursor_") => {
+                // script[0] encodes the owner: rem = answer schedule, chunk = long_len * 1000 + short_len, panic_at = start position
+                let l = script.first().copied().unwrap_or(Lie { rem: 0, chunk: 0, panic_at: 0 });
+                let (llen, slen) = (l.chunk / 1000, l.chunk % 1000);
+                let o = LyingAsRef { long: vec![0x11; llen], short: vec![0x22; slen], sched: l.rem, calls: std::cell::Cell::new(0) };
+                let mut c = std::io::Cursor::new(o);
+                c.set_position(l.panic_at as u64);
+                let got: Vec<u8> = match n {
+                    "cursor_copy_to_slice" => {
+                        let mut dst = vec![0u8; arg];
+                        c.copy_to_slice(&mut dst);
+                        dst
+                    }
+                    "cursor_get_u64" => c.get_u64().to_be_bytes().to_vec(),
+                    "cursor_copy_to_bytes" => c.copy_to_bytes(arg).to_vec(),
+                    _ => {
+                        let mut v = Vec::new();
+                        let mut fuel = 0;
+                        while c.has_remaining() && fuel < 64 {
+                            let ch = c.chunk();
+                            let k = ch.len().min(3).max(1).min(ch.len());
+                            v.extend_from_slice(&ch[..k]);
+                            if k == 0 {
+                                break;
+                            }
+                            c.advance(k);
+                            fuel += 1;
+                        }
+                        v
+                    }
+                };
+                // every byte handed to the caller must come from one of the owner's two answers
+                if got.iter().any(|b| *b != 0x11 && *b != 0x22) {
+                    format!("OOB-READ bytes from outside the owner's slices reached the caller: {}", hex(&got[..got.len().min(16)]))
+                } else {
+                    format!("len {}", got.len())
+                }
+            }
             _ => "unknown".into(),
         }
     }));
@@ -277,7 +340,12 @@ pub fn run(args: &[String]) -> i32 {
     let n = if thorough { 40000 } else { 4000 };
     for i in 0..n {
         let name = CONSUMERS[i % CONSUMERS.len()];
-        let script = gen_script(&mut rng);
+        let mut script = gen_script(&mut rng);
+        if name.starts_with("cursor_") {
+            let llen = *rng.pick(&[8usize, 16, 64, 300]);
+            let slen = *rng.pick(&[0usize, 1, 3, 7, 8]);
+            script = vec![Lie { rem: rng.below(64) as usize, chunk: llen * 1000 + slen, panic_at: *rng.pick(&[0u8, 0, 1, 2, 5, 9]) }];
+        }
         let arg = *rng.pick(&[0usize, 1, 4, 8, 9, 16, 64, 300]);
         let case = format!("{} {} {}", name, show(&script), arg);
         println!("adv-try {}", case);
